@@ -255,13 +255,18 @@ func (u *uploader) createReport(start time.Time, expiryDate string, countFiles [
 		u.deleteFiles(countFiles)
 		return "", fmt.Errorf("report %s already exists", uploadFileName)
 	}
-	// write the uploadable file
+	// write the local file first: the uploader that creates it owns this
+	// week's report, so that the two files never come from different
+	// uploaders (each draws its own X).
 	var errUpload, errLocal error
-	if uploadOK {
+	wroteLocal, errLocal := exclusiveWrite(localFileName, localContents)
+	if errLocal == nil && !wroteLocal {
+		return "", fmt.Errorf("local report %s already exists", localFileName)
+	}
+	// write the uploadable file
+	if errLocal == nil && uploadOK {
 		_, errUpload = exclusiveWrite(uploadFileName, uploadContents)
 	}
-	// write the local file
-	_, errLocal = exclusiveWrite(localFileName, localContents)
 	/*  Wrote the files */
 
 	// even though these errors won't occur, what should happen
